@@ -307,6 +307,10 @@ class Connector:
 
     def _schedule_connection(self, delay, h, is_relay):
         ep = endpoint_from_hint_obj(h, self._tor, self._reactor)
+        if ep is None:
+            # nothing we can dial (e.g. a relay's Tor hint, but we have no
+            # Tor): skip it, as transit.py does
+            return
         desc = describe_hint_obj(h, is_relay, self._tor)
         d = deferLater(self._reactor, delay,
                        self._connect, ep, desc, is_relay)
